@@ -32,13 +32,18 @@ def chown_r(path):
             os.lchown(os.path.join(dp, f), UID, UID)
 
 
+def exe_file(cfg):
+    """file name the executable is invoked under: detect / build, or any other name for exe == 'other'"""
+    return cfg.get("exe_name", "other") if cfg["exe"] == "other" else cfg["exe"]
+
+
 def setup(cfg, root):
     """cfg: dict with exe, nargs, bpdir, desc, vars{os,arch,variant,dname,dver}, plat, plan, store, det, build{...},
     writable, pre, plus optional overrides: platform_tree, plan_text, store_text, desc_text, env_values"""
     shutil.rmtree(root, ignore_errors=True)
     for d in ["bp", "platform", "layers", "app", "out", "bin", "plandir"]:
         os.makedirs(os.path.join(root, d))
-    for n in ["detect", "build", "other"]:
+    for n in {"detect", "build", "other", exe_file(cfg)}:
         os.symlink(TESTBP, os.path.join(root, "bin", n))
     if cfg["desc"] != "missing":
         with open(os.path.join(root, "bp", "buildpack.toml"), "w") as f:
@@ -134,7 +139,7 @@ def run_one(cfg, root):
     env.update(cfg.get("extra_env", {}))
     envb = {k.encode(): (v if isinstance(v, bytes) else v.encode()) for k, v in env.items()}
     p = subprocess.run(["setpriv", "--reuid=65534", "--regid=65534", "--clear-groups",
-                        os.path.join(root, "bin", cfg["exe"])] + args, cwd=os.path.join(root, "app"), env=envb,
+                        os.path.join(root, "bin", exe_file(cfg))] + args, cwd=os.path.join(root, "app"), env=envb,
                        stdout=subprocess.PIPE, stderr=subprocess.PIPE, timeout=60)
 
     def count(name):
